@@ -69,7 +69,9 @@ def gen_case(rng, tier):
     else:
         g = rng.randrange(len(labels))
         mask = ("b", [codes[i] != g for i in range(n)])
-    return dict(keycols=keycols, kinds=kinds, catorders=catorders, names=names, vals=vals, shape=shape, op=op, mask=mask, mk=mk,
+    warm_ = rng.choice([None, None, None] + api.WARM_OPS)
+    chunked_ = rng.random() < 0.2
+    return dict(warm=warm_, chunked=chunked_, keycols=keycols, kinds=kinds, catorders=catorders, names=names, vals=vals, shape=shape, op=op, mask=mask, mk=mk,
                 sort=rng.random() < 0.8, observed_only=rng.random() < 0.75, layout=layout)
 
 
@@ -143,8 +145,10 @@ def run_case(GroupBy, c):
     v, col_names, series_name = make_values(c)
     observed_only = c["observed_only"] if op != "median" else True
     try:
-        gb = GroupBy(keys if nkeys > 1 else keys[0], sort=c["sort"])
-        out = call(gb, op, v, mask, c["observed_only"])
+        with api.strategy(chunk_threshold=4 if c.get("chunked") else None):
+            gb = GroupBy(keys if nkeys > 1 else keys[0], sort=c["sort"])
+            api.warm(gb, c.get("warm"), n)          # the grouping may have been used before
+            out = call(gb, op, v, mask, c["observed_only"])
     except Exception as e:  # noqa: BLE001
         if all(any(col[i] is None for col in c["keycols"]) for i in range(n)):
             return []          # no row has a complete key: nothing to label
